@@ -126,6 +126,9 @@ func Compress(in []byte) (out []byte, err error) {
 	return
 }
 
+// maxExpansion bounds the expansion ratio of DEFLATE (about 1032:1).
+const maxExpansion = 1032
+
 func Decompress(in []byte) (out []byte, n int, err error) {
 	r := bytes.NewReader(in)
 
@@ -137,7 +140,17 @@ func Decompress(in []byte) (out []byte, n int, err error) {
 
 	dsize := defaultCompressor.DecompressedSize(in)
 
-	buf := bytes.NewBuffer(make([]byte, 0, dsize+bytes.MinRead))
+	// the size trailer is untrusted input: use it as a capacity hint only,
+	// bounded by what len(in) bytes of DEFLATE data can expand to
+	hint := dsize
+	if max := len(in) * maxExpansion; hint > max {
+		hint = max
+	}
+	if hint < 0 {
+		hint = 0
+	}
+
+	buf := bytes.NewBuffer(make([]byte, 0, hint+bytes.MinRead))
 
 	var rn int64
 	// read to EOF: the gzip reader verifies checksum and size trailer only at
